@@ -169,10 +169,6 @@ def check_layouts(prog, rep, m):
     for a, e in (('AE_ANG_ID', 'E_ANG_ID'), ('AE_ELEV_0', 'E_ELEV_0'), ('AE_ELEV_1', 'E_ELEV_1'), ('AE_ELEV_2', 'E_ELEV_2')):
         ok = consts.get(a) is not None and consts.get(e) is not None and consts[a] == consts[e] - 3
         rep.add('T4', m, entry, '%s == %s - 3' % (a, e), 1, ok, 'the float half of an event is the event record from column 3 on')
-    cpu = m.funcs.get('_viewshed_cpu')
-    t = {T(s) for s in cpu.own_nodes() if isinstance(s, ast.Assign)}
-    ok = 'event_rcts=np.array(event_list[:,:3],dtype=np.int64)' in t and 'event_aes=np.array(event_list[:,3:],dtype=np.float64)' in t
-    rep.add('T4', cpu, entry, 'event split [:, :3] / [:, 3:]', cpu.node.lineno, ok, 'row/col/type go to the integer half, angle and elevations to the float half')
     ok = consts.get('E_TYPE_ID') == 2 and consts.get('E_ANG_ID') == 3
     rep.add('T4', m, entry, 'E_TYPE_ID is the last integer field, E_ANG_ID the first float field', 1, ok, '')
     # widths of the arrays that the constants index
@@ -196,6 +192,9 @@ def check_layouts(prog, rep, m):
     for f in m.funcs.values():
         for n in f.own_nodes():
             if isinstance(n, ast.Subscript) and isinstance(n.value, ast.Name) and n.value.id in limit and isinstance(n.slice, ast.Name):
+                if n.slice.id in f.params or any(isinstance(x, ast.Name) and x.id == n.slice.id and isinstance(x.ctx, ast.Store)
+                                                 for x in ast.walk(f.node)):
+                    continue        # a local index variable (a loop over a field range), not a field constant
                 c = consts.get(n.slice.id)
                 famname, w = limit[n.value.id]
                 nsub += 1
@@ -331,67 +330,153 @@ def check_axes(prog, rep, m):
         if f is None:
             raise AnalysisIncomplete('%s not found' % fn)
         check_gradient(prog, rep, m, f, entry)
+    check_wrapper(prog, rep, m, entry)
+
+
+def check_wrapper(prog, rep, m, entry):
+    """T6 / T7 / T8 / T10 on the wrapper terms of `_viewshed_cpu` (wterm.py): what the sweep kernel receives, as terms
+    over the wrapper's parameters - local names, tuple assignments, keyword arguments and helper functions do not matter"""
+    from ..wterm import WT, eval_term, key, mentions, show as tshow
     cpu = m.funcs.get('_viewshed_cpu')
-    t = {T(s) for s in cpu.own_nodes() if isinstance(s, ast.Assign)}
-    ok = 'ew_res=(x_range[1]-x_range[0])/(width-1)' in t and 'ns_res=(y_range[1]-y_range[0])/(height-1)' in t and \
-        'height,width=raster.shape' in t and 'x_range=(x_coords[0],x_coords[-1])' in t and 'y_range=(y_coords[0],y_coords[-1])' in t
-    rep.add('T6', cpu, entry, 'ew_res = dx/(width-1), ns_res = dy/(height-1)', cpu.node.lineno, ok,
-            'resolutions from the coordinate extents and the matching axis length')
-    sweepcall = [c for c in calls(cpu.node) if short(c) == '_viewshed_cpu_sweep']
     sw = m.funcs.get('_viewshed_cpu_sweep')
-    ok = len(sweepcall) == 1 and [T(a) for a in sweepcall[0].args][:7] == ['raster.values', 'viewpoint_row', 'viewpoint_col', 'viewpoint_elev',
-                                                                           'viewpoint_target', 'ew_res', 'ns_res'] and \
-        sw.params[:7] == ['raster', 'vp_row', 'vp_col', 'vp_elev', 'vp_target', 'ew_res', 'ns_res']
-    rep.add('T6', cpu, entry, 'sweep called with (row, col, elev, target, ew_res, ns_res) in the kernel\'s order', cpu.node.lineno, ok, '')
-    # T7 sort
-    ls = [c for c in calls(cpu.node) if short(c) == 'lexsort']
-    ok = len(ls) == 1 and T(ls[0].args[0]) == '(event_list[:,E_TYPE_ID],event_list[:,E_ANG_ID])'
-    rep.add('T7', cpu, entry, norm(ls[0])[:100] if ls else 'lexsort', cpu.node.lineno, ok,
-            'events are ordered by angle (last lexsort key = primary) and, for equal angles, by type')
-    # T8 observer cell
-    ok = "selection=raster.sel(x=[x],y=[y],method='nearest')" in t and 'y_view=np.where(y_coords==y)[0][0]' in t and \
-        'x_view=np.where(x_coords==x)[0][0]' in t and 'viewpoint_row=y_view' in t and 'viewpoint_col=x_view' in t
-    rep.add('T8', cpu, entry, 'observer cell = nearest coordinate on each axis', cpu.node.lineno, ok,
-            'the observer stands on the cell whose centre is nearest (row from y, column from x)')
-    # T10 widening before the addition
-    ve = [s for s in cpu.own_nodes() if isinstance(s, ast.Assign) and T(s.targets[0]) == 'viewpoint_elev']
-    ok = False
-    if len(ve) == 1 and isinstance(ve[0].value, ast.BinOp) and isinstance(ve[0].value.op, ast.Add):
-        l = ve[0].value.left
-        ok = isinstance(l, ast.Call) and T(l.func) in ('float', 'np.float64') and T(l.args[0]) in ('raster.values[y_view,x_view]', 'raster.data[y_view,x_view]') \
-            and T(ve[0].value.right) == 'observer_elev'
-        if not ok:
-            # or the raster was widened before
-            wid = [s for s in cpu.own_nodes() if isinstance(s, ast.Assign) and T(s) in ('raster.values=raster.values.astype(np.float64)',)]
-            ok = bool(wid) and wid[0].lineno < ve[0].lineno and T(l) in ('raster.values[y_view,x_view]',)
-    rep.add('T10', cpu, entry, norm(ve[0]) if ve else 'viewpoint_elev', ve[0].lineno if ve else cpu.node.lineno, ok,
+    if cpu is None or sw is None:
+        raise AnalysisIncomplete('_viewshed_cpu / _viewshed_cpu_sweep not found')
+    w = WT(prog)
+    w.run(cpu)
+    kc = [c for c in w.calls if c.callee is sw]
+    if len(kc) != 1 or not kc[0].bound:
+        rep.add('T6', cpu, entry, 'sweep kernel call', cpu.node.lineno, None, '%d calls of the sweep kernel with bound arguments' % len(kc))
+        return
+    b = kc[0].bound
+    line = kc[0].node.lineno
+    P = {p: ('param', p) for p in cpu.params}
+    rname = cpu.params[0]
+    env0 = dict(P)
+    env0['raster'] = P[rname]
+
+    def spec(text, **extra):
+        e = dict(env0)
+        e.update(extra)
+        return w.expr(text, e, cpu)
+    xc, yc = spec("raster.indexes.get('x').values"), spec("raster.indexes.get('y').values")
+
+    def verdict(got, want, swapped=None):
+        if got is None:
+            return None, 'argument not bound'
+        if key(got) == key(want):
+            return True, ''
+        if swapped is not None and key(got) == key(swapped):
+            return False, 'the x and y roles are exchanged'
+        return None, 'got %s' % tshow(got, 200)
+    # T6: resolutions
+    for prm, text, text_sw in (('ew_res', '(xc[-1] - xc[0]) / (raster.shape[1] - 1)', '(yc[-1] - yc[0]) / (raster.shape[0] - 1)'),
+                               ('ns_res', '(yc[-1] - yc[0]) / (raster.shape[0] - 1)', '(xc[-1] - xc[0]) / (raster.shape[1] - 1)')):
+        want, sw_ = spec(text, xc=xc, yc=yc), spec(text_sw, xc=xc, yc=yc)
+        got = b.get(prm)
+        ok, why = verdict(got, want, sw_)
+        if ok is None and got is not None and got[0] == 'arith':
+            # a different rational function of the same coordinate ends and extents is a different resolution
+            from ..wterm import to_rat
+            if {a for a in to_rat(got).atoms()} <= {a for a in to_rat(want).atoms()} | {a for a in to_rat(sw_).atoms()}:
+                ok = False
+        rep.add('T6', cpu, entry, '%s = %s' % (prm, text), line, ok,
+                'resolutions from the coordinate extents and the matching axis length (ew: x coordinates and columns, ns: y '
+                'coordinates and rows); ' + why)
+    # T8: observer cell
+    cells = {}
+    for prm, dim, other in (('vp_row', 'y', 'x'), ('vp_col', 'x', 'y')):
+        def cell(d, coords):
+            sel = spec("raster.sel(x=[x], y=[y], method='nearest').%s.values[0]" % d,
+                       x=P.get('x', ('param', 'x')), y=P.get('y', ('param', 'y')))
+            return spec('np.where(c == s)[0][0]', c=coords, s=sel)
+        want = cell(dim, yc if dim == 'y' else xc)
+        sw_ = cell(other, xc if dim == 'y' else yc)
+        cells[prm] = want
+        ok, why = verdict(b.get(prm), want, sw_)
+        rep.add('T8', cpu, entry, '%s = index of the nearest %s coordinate' % (prm, dim), line, ok,
+                'the observer stands on the cell whose centre is nearest (row from y, column from x); ' + why)
+    # T10: observer elevation widened before the addition; float64 terrain; target height
+    oname = next((p for p in cpu.params if 'observer' in p or p == 'observer_elev'), None)
+    got = b.get('vp_elev')
+    ok, why = None, ''
+    if got is not None and oname is not None:
+        row, col = b.get('vp_row'), b.get('vp_col')
+        wants = [spec('%s(raster.values[r, c]) + o' % fn, r=row, c=col, o=P[oname]) for fn in ('float', 'np.float64')]
+        wants += [spec('%s(raster.values.astype(np.float64)[r, c]) + o' % fn, r=row, c=col, o=P[oname]) for fn in ('float',)]
+        wants += [spec('raster.values.astype(np.float64)[r, c] + o', r=row, c=col, o=P[oname])]
+        raw = spec('raster.values[r, c] + o', r=row, c=col, o=P[oname])
+        if any(key(got) == key(x) for x in wants):
+            ok = True
+        elif key(got) == key(raw):
+            ok, why = False, 'the terrain value is added in its own (possibly narrow integer) dtype'
+        else:
+            why = 'got %s' % tshow(got, 200)
+    rep.add('T10', cpu, entry, 'vp_elev = float(terrain[row, col]) + observer_elev', line, ok,
             'the observer elevation must be formed in floating point: terrain value widened BEFORE observer_elev is added '
-            '(uint8 250 + 10 wraps to 4)')
-    # the target height handed to the sweep is max(target_elev, 0): evaluated on its defining statements
-    tname = None
-    if len(sweepcall) == 1 and len(sweepcall[0].args) > 4 and isinstance(sweepcall[0].args[4], ast.Name):
-        tname = sweepcall[0].args[4].id
-    okt = None
-    whyt = 'target height argument not found'
-    if tname is not None:
-        from ..kutil import Spec
-        param = next((p for p in cpu.params if p in ('target_elev',)), None) or tname
-        defs = [n for n in cpu.node.body if (isinstance(n, ast.Assign) and any(T(tg_) == tname for tg_ in n.targets)) or
-                (isinstance(n, ast.If) and any(isinstance(x, ast.Assign) and T(x.targets[0]) == tname for x in ast.walk(n)))]
+            '(uint8 250 + 10 wraps to 4); ' + why)
+    tname = next((p for p in cpu.params if 'target' in p), None)
+    got = b.get('vp_target')
+    okt, whyt = None, 'target height argument not found'
+    if got is not None and tname is not None:
         try:
-            sp = Spec(prog, {param: Rat.sym(param)}, m)
-            for n in defs:
-                sp.it.stmt(n)
-            val = sp.it.as_scalar(sp.it.env.get(tname)) if defs else Rat.sym(tname)
-            res = [(x, evaluate(val, {Sym(param): Fraction(x)})) for x in (-3, 0, 5, Fraction(1, 2))]
-            okt = all(got == max(x, 0) for x, got in res)
-            whyt = 'target_elev -> height: %s' % [(str(a), str(b)) for a, b in res]
-        except (AnalysisIncomplete, CannotEvaluate) as e:
+            res = [(x, eval_term(got, {tname: Fraction(x)})) for x in (-3, 0, 5, Fraction(1, 2))]
+            okt = all(g == max(x, 0) for x, g in res)
+            whyt = 'target_elev -> height: %s' % [(str(a_), str(b_)) for a_, b_ in res]
+        except ValueError as e:
             okt, whyt = None, str(e)
-    rep.add('T10', cpu, entry, 'target height applied when positive', cpu.node.lineno, okt,
+    rep.add('T10', cpu, entry, 'target height applied when positive', line, okt,
             'the target height added to every cell is target_elev when positive, else 0; ' + whyt)
-    ok = 'raster.values=raster.values.astype(np.float64)' in t
-    rep.add('T10', cpu, entry, 'kernels receive float64 terrain', cpu.node.lineno, ok, 'the event generation and the sweep work on float64 values')
+    got = b.get('raster')
+    want = spec('raster.values.astype(np.float64)')
+    ok = key(got) == key(want) if got is not None else None
+    if got is not None and not ok:
+        ok = False if key(got) == key(spec('raster.values')) else None
+    rep.add('T10', cpu, entry, 'kernels receive float64 terrain', line, ok,
+            'the event generation and the sweep work on float64 values; got %s' % (tshow(got, 120) if got is not None else None))
+    # T6: the remaining kernel arguments are the arrays the event pass filled
+    inits = [c for c in w.calls if isinstance(c.callee, Func) and c.callee.jit is not None and c.callee is not sw and
+             'event_list' in (c.bound or {})]
+    ok = None
+    if len(inits) == 1:
+        ib = inits[0].bound
+        ok = key(ib.get('vp_row')) == key(b.get('vp_row')) and key(ib.get('vp_col')) == key(b.get('vp_col')) and \
+            key(ib.get('raster')) == key(b.get('raster')) and key(ib.get('data')) == key(b.get('data')) and \
+            key(ib.get('visibility_grid')) == key(b.get('visibility_grid'))
+    rep.add('T6', cpu, entry, 'event pass and sweep share the viewpoint cell, the terrain and the work arrays', line, ok, '')
+    # T7: events sorted by angle, ties by type; rcts / aes split of the sorted list
+    ls = [c for c in w.calls if c.name.endswith('lexsort')]
+    ok, why = None, '%d lexsort calls' % len(ls)
+    if len(ls) == 1 and len(inits) == 1 and ls[0].args:
+        ev = inits[0].bound['event_list']
+        want = spec('(ev[:, E_TYPE_ID], ev[:, E_ANG_ID])', ev=ev)
+        sw_ = spec('(ev[:, E_ANG_ID], ev[:, E_TYPE_ID])', ev=ev)
+        ok, why = verdict(ls[0].args[0], want, sw_)
+        if ok is False:
+            why = 'the keys are exchanged: the LAST lexsort key is the primary one'
+        if ok:
+            srt = spec('ev[k]', ev=ev, k=ls[0].result)
+            ok = mentions(b.get('event_rcts'), srt) and mentions(b.get('event_aes'), srt) and \
+                key(b.get('event_rcts')[2][0] if b.get('event_rcts')[0] == 'call' and b.get('event_rcts')[2] else None) == key(spec('s[:, :3]', s=srt)) and \
+                key(b.get('event_aes')[2][0] if b.get('event_aes')[0] == 'call' and b.get('event_aes')[2] else None) == key(spec('s[:, 3:]', s=srt))
+            why = 'rcts = sorted[:, :3], aes = sorted[:, 3:]' if ok else 'the sweep does not receive the (:3 / 3:) split of the sorted events'
+            if not ok:
+                # a column slice of the sorted list with other constant bounds is a wrong split; anything else is not understood
+                def colslice(t_):
+                    a_ = t_[2][0] if t_ is not None and t_[0] == 'call' and t_[2] else None
+                    if a_ is not None and a_[0] == 'index' and key(a_[1]) == key(srt) and a_[2][0] == 'tuple' and len(a_[2][1]) == 2 and \
+                            a_[2][1][1][0] == 'slice':
+                        return a_[2][1][1]
+                    return None
+                s1, s2 = colslice(b.get('event_rcts')), colslice(b.get('event_aes'))
+                ok = False if (s1 is not None and s2 is not None) else None
+    rc, ae = b.get('event_rcts'), b.get('event_aes')
+    okd = None
+    if rc is not None and ae is not None and rc[0] == 'call' and ae[0] == 'call':
+        okd = dict(rc[3]).get('dtype') == ('global', 'np.int64') and dict(ae[3]).get('dtype') == ('global', 'np.float64')
+    rep.add('T4', cpu, 'viewshed records', 'event split [:, :3] -> int64 / [:, 3:] -> float64', line, (okd if ok else ok),
+            'row/col/type go to the integer half, angle and elevations to the float half')
+    rep.add('T7', cpu, entry, 'lexsort((type, angle)) then split', ls[0].node.lineno if ls else line, ok,
+            'events are ordered by angle (last lexsort key = primary) and, for equal angles, by type; ' + why)
 
 
 def _one(r):
